@@ -15,7 +15,7 @@ VARIABLES inst, stage
 
 Masks == {"none", "one", "row", "col", "all", "checker"}
 Coarse ==
-    CASE Family = "C01" -> {<<c, r>> : c \in 1..MaxCurves, r \in {1, 2, 3, 22}}
+    CASE Family = "C01" -> {<<c, r>> : c \in 1..MaxCurves, r \in {1, 2, 3, 22, 101}}
       [] Family = "C03" -> {<<sec, v, case>> : sec \in {"Version", "Well", "Curves", "Parameter"}, v \in {"1.2", "2.0"},
                                               case \in {"preserve", "upper", "lower"}}
       [] Family = "C12" -> {<<a>> : a \in 1..NPres}
